@@ -30,6 +30,10 @@ func mix(a, b, c uint64) uint64 {
 }
 
 // RunE2E runs one scenario; id is the replayable name of the case ("e2e <seed> <index>").
+// E2EFailures counts failed scenarios of this process (the callers stop running scenarios after a few: a broken
+// consumer makes every scenario wait for its timeout).
+var E2EFailures int
+
 func RunE2E(run *hlib.Run, id string, seed uint64, lg *Log, o E2EOpts) {
 	var mu sync.Mutex
 	attempts := map[int64]int{}
@@ -99,7 +103,7 @@ func RunE2E(run *hlib.Run, id string, seed uint64, lg *Log, o E2EOpts) {
 	if o.Rc {
 		conf.Consumer.IsolationLevel = sarama.ReadCommitted
 	}
-	fail := func(sig, detail string) { run.IOFail(sig, id, detail) }
+	fail := func(sig, detail string) { E2EFailures++; run.IOFail(sig, id, detail) }
 	cons, err := sarama.NewConsumer([]string{broker.Addr()}, conf)
 	if err != nil {
 		fail("e2e-setup", err.Error())
@@ -138,7 +142,7 @@ func RunE2E(run *hlib.Run, id string, seed uint64, lg *Log, o E2EOpts) {
 		}
 	}()
 	var got []sarama.VerifMsg
-	deadline := time.After(20 * time.Second)
+	deadline := time.After(8 * time.Second)
 	rr := hlib.NewRand(seed ^ 0xabcdef)
 	timedOut := false
 loop:
